@@ -2801,3 +2801,47 @@ M('C20', 'yield-from-sessionkeys-after-container', PGP, "            for sig in 
   "            yield from self._signatures\n            yield self.message\n            yield from self._sessionkeys\n", 'C20.1')
 T('C20', 'twin-ops-flag-operands-swapped', PK, "        self.nested = (packet[0] == 1)\n", "        self.nested = (1 == packet[0])\n")
 M('C20', 'ops-reader-flag-two', PK, "        self.nested = (packet[0] == 1)\n", "        self.nested = (2 == packet[0])\n", 'C20.6')
+
+# ---- second held-out wave of seeded changes (C14-w2mut2/3, C20-w2mut2/3) and further kinds of loss
+POPS = "        [ keys.pop((getattr(self, 'fingerprint.keyid', '~'), None), t) for t in (True, False) ]\n"
+M('C14', 'result-pops-both-halves', PGP, POPS, "        if self._key is not None:\n            for t in (True, False):\n                keys.pop((self.fingerprint.keyid, t), None)\n", 'C14.3')
+M('C14', 'result-pops-most-recent', PGP, POPS, "        if len(keys) > 1:\n            keys.popitem()\n", 'C14.3')
+M('C14', 'result-del-public-half', PGP, POPS, "        if (self.fingerprint.keyid, True) in keys and (self.fingerprint.keyid, False) in keys:\n            del keys[(self.fingerprint.keyid, True)]\n", 'C14.3')
+T('C14', 'twin-result-pops-own-entry', PGP, POPS, "        if self._key is not None:\n            keys.pop((self.fingerprint.keyid, self.is_public), None)\n")
+T('C14', 'twin-result-noop-pop-loop', PGP, POPS, "        for t in (True, False):\n            keys.pop((getattr(self, 'fingerprint.keyid', '~'), None), t)\n")
+M('C14', 'result-filtered-to-primaries-with-uids', PGP, "        # return {'keys': keys, 'orphaned': orphaned}\n        return keys\n", "        return collections.OrderedDict((k, v) for k, v in keys.items() if v._uids)\n", 'C14.3')
+M('C14', 'filing-skips-known-key', PGP, "                    if pgpobj.is_primary:\n                        keys[(pgpobj.fingerprint.keyid, pgpobj.is_public)] = pgpobj\n",
+  "                    if pgpobj.is_primary:\n                        if (pgpobj.fingerprint.keyid, pgpobj.is_public) not in keys:\n                            keys[(pgpobj.fingerprint.keyid, pgpobj.is_public)] = pgpobj\n", 'C14.3')
+UACOPY = "        _bytes += self.subpackets.__bytearray__()\n        return _bytes\n\n    def parse(self, packet):\n        super(UserAttribute, self).parse(packet)\n"
+M('C14', 'user-attribute-copy-from-image', PK, UACOPY,
+  "        _bytes += self.subpackets.__bytearray__()\n        return _bytes\n\n    def __copy__(self):\n        ua = UserAttribute()\n        ua.header = copy.copy(self.header)\n        ua.subpackets['Image'] = copy.copy(self.image)\n        ua.update_hlen()\n        return ua\n\n"
+  "    def parse(self, packet):\n        super(UserAttribute, self).parse(packet)\n", 'C14.4')
+T('C14', 'twin-user-attribute-copy-complete', PK, UACOPY,
+  "        _bytes += self.subpackets.__bytearray__()\n        return _bytes\n\n    def __copy__(self):\n        ua = UserAttribute()\n        ua.header = copy.copy(self.header)\n        ua.subpackets = copy.copy(self.subpackets)\n        return ua\n\n"
+  "    def parse(self, packet):\n        super(UserAttribute, self).parse(packet)\n")
+M('C14', 'signature-packet-copy-drops-unhashed', PK, "        spkt.subpackets = copy.copy(self.subpackets)\n        spkt.hash2 = copy.copy(self.hash2)",
+  "        for sp in self.subpackets._hashed_sp.values():\n            spkt.subpackets['h_' + sp.__class__.__name__] = sp\n        spkt.hash2 = copy.copy(self.hash2)", 'C14.4')
+M('C14', 'key-packet-copy-without-material', PK, "        pk.pkalg = self.pkalg\n        pk.keymaterial = copy.copy(self.keymaterial)\n\n        return pk", "        pk.pkalg = self.pkalg\n\n        return pk", 'C14.4')
+M('C14', 'uid-copy-from-derived-view', PGP, "        uid |= copy.copy(self._uid)\n        for sig in self._signatures:", "        uid |= UserID.new(self.name, comment=self.comment, email=self.email)\n        for sig in self._signatures:", 'C14.4')
+M('C14', 'key-copy-userids-view', PGP, "        for uid in self._uids:\n            key |= copy.copy(uid)\n", "        for uid in self.userids:\n            key |= copy.copy(uid)\n", 'C14.4')
+SIGARM = "        elif isinstance(other, PGPSignature):\n            self._signatures.insort(other)\n"
+M('C14', 'or-signature-dedup', PGP, SIGARM, "        elif isinstance(other, PGPSignature):\n            if not any(s.created == other.created and s.signer == other.signer and s.type == other.type for s in self._signatures):\n                self._signatures.insort(other)\n", 'C14.5')
+M('C14', 'or-signature-expired-refused', PGP, SIGARM, "        elif isinstance(other, PGPSignature) and not other.is_expired:\n            self._signatures.insort(other)\n", 'C14.5')
+M('C14', 'or-signature-resorted-by-time', PGP, SIGARM, "        elif isinstance(other, PGPSignature):\n            self._signatures.insort(other)\n            self._signatures = SorteDeque(sorted(self._signatures, key=lambda s: s.created, reverse=True))\n", 'C14.5')
+M('C14', 'uid-or-signature-dedup', PGP, "        if isinstance(other, PGPSignature):\n            self._signatures.insort(other)\n            if self.parent is not None and self in self.parent._uids:",
+  "        if isinstance(other, PGPSignature):\n            if other not in self._signatures:\n                self._signatures.insort(other)\n            if self.parent is not None and self in self.parent._uids:", 'C14.5')
+M('C14', 'export-sorted-by-creation', PGP, KEYSIGS, "        for sig in sorted((s for s in self._signatures if not s.embedded and s.exportable), key=lambda s: s.created):\n            _bytes += sig.__bytearray__()\n", 'C14.1')
+M('C20', 'zip-window-13', CO, "            return zlib.decompress(data, -15)", "            return zlib.decompress(data, -13)", 'C20.5')
+M('C20', 'zip-decompress-zlib-container', CO, "            return zlib.decompress(data, -15)", "            return zlib.decompress(data)", 'C20.5')
+M('C20', 'zlib-compress-raw', CO, "        if self is CompressionAlgorithm.ZLIB:\n            return zlib.compress(data)\n", "        if self is CompressionAlgorithm.ZLIB:\n            return zlib.compress(data)[2:-4]\n", 'C20.5')
+T('C20', 'twin-zip-wbits-keyword', CO, "            return zlib.decompress(data, -15)", "            return zlib.decompress(data, wbits=-zlib.MAX_WBITS)")
+M('C20', 'literal-time-local-relabelled', PK, "        self.mtime = datetime.fromtimestamp(val, timezone.utc)\n\n    @mtime.register(bytes)", "        self.mtime = datetime.fromtimestamp(val).replace(tzinfo=timezone.utc)\n\n    @mtime.register(bytes)", 'C20.6')
+M('C20', 'literal-time-local-naive', PK, "        self.mtime = datetime.fromtimestamp(val, timezone.utc)\n\n    @mtime.register(bytes)", "        self.mtime = datetime.fromtimestamp(val)\n\n    @mtime.register(bytes)", 'C20.6')
+T('C20', 'twin-literal-time-utcfromtimestamp', PK, "        self.mtime = datetime.fromtimestamp(val, timezone.utc)\n\n    @mtime.register(bytes)", "        self.mtime = datetime.utcfromtimestamp(val).replace(tzinfo=timezone.utc)\n\n    @mtime.register(bytes)")
+T('C20', 'twin-literal-time-tz-keyword', PK, "        self.mtime = datetime.fromtimestamp(val, timezone.utc)\n\n    @mtime.register(bytes)", "        seconds = val\n        self.mtime = datetime.fromtimestamp(seconds, tz=timezone.utc)\n\n    @mtime.register(bytes)")
+MSGSIG = "        if isinstance(other, PGPSignature):\n            self._signatures.insort(other)\n            return self\n\n        if isinstance(other, (PKESessionKey, SKESessionKey)):\n            self._sessionkeys.append(other)\n            return self\n"
+M('C20', 'or-signature-dedup-on-import', PGP, MSGSIG, MSGSIG.replace("            self._signatures.insort(other)\n", "            if not any(s.signer == other.signer and s.created == other.created for s in self._signatures):\n                self._signatures.insort(other)\n"), 'C20.5')
+M('C20', 'or-signatures-resorted', PGP, MSGSIG, MSGSIG.replace("            self._signatures.insort(other)\n", "            self._signatures.insort(other)\n            self._signatures = SorteDeque(sorted(self._signatures, reverse=True))\n"), 'C20.5')
+M('C20', 'or-sessionkey-one-per-recipient', PGP, MSGSIG, MSGSIG.replace("            self._sessionkeys.append(other)\n", "            if all(getattr(sk, 'encrypter', None) != getattr(other, 'encrypter', object()) for sk in self._sessionkeys):\n                self._sessionkeys.append(other)\n"), 'C20.5')
+M('C20', 'or-skesk-refused', PGP, MSGSIG, MSGSIG.replace("(PKESessionKey, SKESessionKey)", "PKESessionKey"), 'C20.5')
+M('C20', 'trailing-sigs-sorted-by-time', PGP, "            for sig in self._signatures:\n                yield sig\n\n    def __or__(self, other):\n        if isinstance(other, Marker):", "            for sig in sorted(self._signatures, key=lambda s: s.created):\n                yield sig\n\n    def __or__(self, other):\n        if isinstance(other, Marker):", 'C20.2')
